@@ -44,6 +44,9 @@ def families(tier):
     q = tier == "quick"
     return [
         ("twins", lambda: _twins(tier), 1),
+        # dozens and hundreds of stems around a small knot: the derivations and the texts, one call each
+        ("many-stems", lambda: ({**c, "depth": 1, "ops": ["without_pseudoknots", "without_isolated", "dot_bracket", "str"]}
+                                for c in __import__("mc.props.c02", fromlist=["x"])._many_stems(tier) if c["n"] > 150), 1),
         # crossing stems of 100-300 base pairs (more than 256 bracket characters of one kind): the derivations and the texts, one call each
         ("long-stems", lambda: ({**c, "depth": 2, "ops": ["without_pseudoknots", "without_isolated", "dot_bracket", "str"]} for c in __import__("mc.props.c02", fromlist=["x"])._long_stems(tier)), 1),
         ("M", lambda: enum2d.M(6 if q else 7), 1),
